@@ -90,6 +90,21 @@ static void check_lookups(TState<Tok>& s, uint64_t limit, const std::string& ctx
   }
 }
 
+// every live token still resolves to its own pointer: run on EVERY successor before deduplication, because the state key
+// (token set, cursor, table size) does not contain the stored pointers - a successor whose table content was damaged must
+// not be merged unseen with an intact state that has the same key
+template<class Tok>
+static void check_live(TState<Tok>& s, const std::string& ctx)
+{
+  for (auto& kv : s.model) {
+    void* r = nullptr;
+    auto o = attempt([&] { r = s.impl.lookup_index((Tok)kv.first); });
+    n_eval++;
+    if (o != RET) viol("C15 level=table op=lookup kind=live-token-aborts", ctx + s.hist + " lookup " + std::to_string(kv.first), "lookup of live token aborted");
+    else if (r != kv.second) viol("C15 level=table op=lookup kind=wrong-pointer", ctx + s.hist + " lookup " + std::to_string(kv.first), "lookup returned a different pointer than the one registered");
+  }
+}
+
 template<class Tok>
 static bool do_remove(TState<Tok>& s, uint64_t t, const std::string& ctx)
 {
@@ -131,7 +146,7 @@ static void table_full_space(unsigned limit)
     {
       TState<Tok> c = s;
       if (do_get(c, limit, ctx)) {
-        // the fresh token resolves immediately
+        check_live(c, ctx);
         auto k = tkey(c);
         if (seen.insert(k).second) frontier.push_back(std::move(c));
       }
@@ -139,6 +154,7 @@ static void table_full_space(unsigned limit)
     for (uint64_t t = 1; t <= probe_hi; t++) {
       TState<Tok> c = s;
       if (do_remove(c, t, ctx)) {
+        check_live(c, ctx);
         auto k = tkey(c);
         if (seen.insert(k).second) frontier.push_back(std::move(c));
       }
